@@ -1,6 +1,7 @@
 import Req.Driver.Proto
 import Req.C02.RespSM
 import Req.C02.H1Body
+import Req.C02.H1Msg
 /-! Driver lanes of C02. -/
 namespace Req.Driver.L.C02
 open Req.Proto Req.C02
@@ -119,8 +120,36 @@ def laneH1Body : List String → String
     | _, _, _, _, _ => "bad-op"
   | _ => "bad-op"
 
+def h1ErrStr : H1Err → String
+  | .truncatedHead => "truncatedHead" | .unsupported => "unsupported" | .tooMany1xx => "tooMany1xx"
+  | .badContentLength => "badContentLength" | .unsupportedTE => "unsupportedTE"
+  | .body e => "body:" ++ ioErrStr (some e)
+
+/-- the fields the e2e lanes compare: `X-…` and `Content-Type` -/
+def keepField (kv : Bytes × Bytes) : Bool :=
+  kv.1.take 2 == [88, 45] || kv.1 == [67, 111, 110, 116, 101, 110, 116, 45, 84, 121, 112, 101]
+
+def viewStr (v : View) : String :=
+  "status=" ++ toString v.status ++ " hdr=" ++ kvStr (v.fields.filter keepField) ++
+    " trailer=" ++ kvStr v.trailer ++ " body=" ++ encodeHex v.body ++ " end=" ++ ioErrStr v.bodyErr
+
+/-- `c02h1msg <head 0|1> <fin> <wire>` → view of the caller -/
+def laneH1Msg : List String → String
+  | [hd, fin, wire] =>
+    match hd.toList, parseNetEnd fin, decodeHex wire with
+    | [c], some fin, some w =>
+      match parseBool01 c with
+      | none => "bad-op"
+      | some isHead =>
+        match parseResponseTop isHead fin w with
+        | .ok v => viewStr v
+        | .error e => "error:" ++ h1ErrStr e
+    | _, _, _ => "bad-op"
+  | _ => "bad-op"
+
 def lanes : List (String × (List String → String)) := [
   ("c02ops", laneOps),
+  ("c02h1msg", laneH1Msg),
   ("c02h1body", laneH1Body)
 ]
 
